@@ -30,6 +30,8 @@ def validate(ctx, module, cfg, tracefile_name, rows, tag, max_rounds=12, timeout
             break
         core.write_ndjson(os.path.join(d, tracefile_name), flat)
         r = ctx.tlc(module, cfg, workers=1, timeout=timeout, heap="8g", tag="%s_%d" % (tag, rnd), allow_fail=True)
+        ctx.cov["states"] += r.distinct
+        ctx.cov["transitions"] += r.generated
         m = re.search(r'<<"REJECTED-AT", (\d+), "((?:[^"\\]|\\.)*)", (".*")>>', r.out)
         if m:
             line = int(m.group(1))
